@@ -253,7 +253,10 @@ def check_fold(ctx, inst, fold, qname, field, reverse):
         qv = P.val_call(h, h.body, qb)
         pv = [(b, P.val_call(h, h.body, b)) for b, p, fr, t in P.calls(h) if p and generic_path(p) == "haloswap::querier::query_pair_info"]
         fn_, qb_ = h, qb
-        acc_root = "C:%s@%s:bb%d" % (h.path, fold.path, hb)
+        # the private helper is inlined by the provenance engine: the accumulator shows the pair query itself
+        acc_root = "C:haloswap::querier::%s@%s:bb%d.%s" % (qname, h.path, qb, field)
+        if not common.pure_helper(P, h):
+            acc_root = "C:%s@%s:bb%d" % (h.path, fold.path, hb)
         # the helper returns the queried field
         rets = set()
         for (b, i, cls, v) in common.ok_exit_blocks(P, h):
